@@ -1261,6 +1261,13 @@ M('sweep11.client.url_join_neg', ['C12'], 'emitter/otlp/src/client.rs',
   'if !url.ends_with("/") && !path.starts_with("/") {',
   'if url.ends_with("/") && !path.starts_with("/") {', 'C12.R9:url-join')
 
+M('sweep11.template.literal_eq_ne', ['C16'], 'core/src/template.rs',
+  '            return a == b;',
+  '            return a != b;', 'C16.R1h:literal-fast-path')
+M('sweep11.template.literal_eq_self', ['C16'], 'core/src/template.rs',
+  '            return a == b;',
+  '            return a == a;', 'C16.R1h:literal-fast-path')
+
 # ---- round 6 (own probing of the blocking entry points): Trigger, send_or_wait, callbacks ------------------------------------------
 M("C07.wait_zero_timeout_reports_flushed", ["C07"], "batcher/src/sync.rs",
   "            if timeout == Duration::ZERO {\n                return false;", "            if timeout == Duration::ZERO {\n                return true;", "C07.R4:Trigger")
